@@ -276,9 +276,10 @@ def run(R):
         if ctx.quiet:
             return
         fr = kw.get("frame")
-        if ev == "enter" and fr.inst is sz and kw["callee"] is bexp:
+        in_sz = fr is not None and (fr.inst is sz or fr.inst.name.startswith(sz.name + "::{closure"))     # the body, or a closure of it
+        if ev == "enter" and in_sz and kw["callee"] is bexp:
             calls.append(kw["args"])
-        elif ev == "ret" and fr.inst is sz and kw.get("callee") is bexp:
+        elif ev == "ret" and in_sz and kw.get("callee") is bexp:
             rets.append(kw["value"].vid if type(kw["value"]) is I else None)
         elif ev == "assign" and fr.inst is sz and kw["place"]["local"] == 0 and not kw["place"]["projection"]:
             stt = kw["st"]
